@@ -6,6 +6,8 @@ Assembled from parts (each builds its own Props file and runs its own ties and o
                                                                          unfold, __getitem__, iteration)
   arithmetic / reductions checks/ops_algebra.py  Props/C05_algebra.v    (broadcasting, matmul/addmm, sum/mean/max/min, concat/stack/unbind,
                                                                          operator and reflected-operator forms with Python scalars)
+  memory layouts          checks/wrappers.py     (metamorphic tie)      every catalogued op on Fortran-ordered / strided / cropped /
+                                                                         transposed-view operands = the same op on C-contiguous ones
 """
 import importlib
 
@@ -24,9 +26,14 @@ def _parts(ctx=None):
 def run(ctx):
     for mod, kw in _parts(ctx):
         mod.run_part(ctx, **kw)
+    from checks import wrappers
+    wrappers.run_layout_part(ctx)
 
 
 def replay(ctx, data):
+    if "layout" in data.get("input", {}):
+        from checks import wrappers
+        return wrappers.replay(ctx, data)
     for mod, kw in _parts():
         fn = getattr(mod, "replay", None) or getattr(mod, "replay_part", None)
         if fn is None:
